@@ -23,5 +23,5 @@ func run(e *Env) error {
 	} else if done {
 		return nil
 	}
-	return s.CodecCases(e, e.N(600, 5000), e.N(3, 10), e.N(4, 16), true)
+	return s.CodecCases(e, e.N(600, 3000), e.N(3, 6), e.N(4, 8), true)
 }
